@@ -3,11 +3,11 @@ PROP = dict(
     id="C16",
     module="FV.C16.Props",
     coq_targets=["theories/C16/Props.vo"],
-    theorems=["overlay_total_upto_64", "overlay_sound", "first_match_is_active", "preflight_keeps_substitutions",
+    theorems=["overlay_total", "overlay_sound", "first_match_is_active", "preflight_keeps_substitutions",
               "order_irrelevant_when_compatible", "overlay_applies_source_rules", "font_applies_source_rules",
-              "no_collision_without_full_range_conditions", "merging_never_adds_rules",
-              "rank_words_refuted", "rank_words_priority_refuted", "empty_region_refuted", "touching_edges_refuted",
-              "condset_collision_refuted", "later_rule_wins_refuted", "chained_rules_order_refuted"],
+              "no_collision_without_full_range_conditions", "condition_set_box_is_conjunction",
+              "touching_edges_refuted", "condset_collision_refuted", "later_rule_wins_refuted",
+              "chained_rules_order_refuted"],
     prelude="Require Import FV.C16.Model.\nFrom Coq Require Import List NArith ZArith Bool.",
     shard=25,
     harness_args=lambda tier, seed: ["--seed", str(seed), "--n", str(N[tier][0]), "--e2e", str(N[tier][1]),
@@ -15,7 +15,7 @@ PROP = dict(
     rule="stage E (first): designspaces with <rules> (1-3 axes, 0..1024 or 0..1000 so that part of the edges fall "
          "between F2Dot14 grid points, default at the minimum, middle or maximum, 1-9 rules, 1-3 condition sets, "
          "open-ended / out-of-range / degenerate / inverted ranges, shared edge pools, repeated regions and "
-         "substitution maps, now and then a rule without condition set or a range written as two conditions) "
+         "substitution maps, now and then a rule without condition set or a range written as two conditions on one axis) "
          "compiled by fontc::generate_font, GSUB decoded with read-fonts; fixed designs for each situation of "
          "DESIGN.md 6.4; stage A: rule lists (1-12 rules, 1-3 axes, 1-3 boxes per rule; plus 63, 64 and 65-70 rules) "
          "given to the real overlay_feature_variations. The property is evaluated on the implementation's output at "
@@ -37,4 +37,9 @@ PROP = dict(
                  "to_f2dot14 rounding of other edges is modelled and compared on every run but not covered by a theorem",
                  "the conversion of a source condition set into an NBox (ufo2fontir / fontbe provider) is exercised "
                  "end to end only; Glyphs bracket layers are not exercised"],
+)
+
+MANIFEST = dict(
+    text="Coq model of the conditional-substitution pipeline: NBox insert/cleanup/overlay_onto branch by branch, multi-word Rank arithmetic, rule merging, the overlay loop with re-seeding and priority sort, condition-set conversion with F2Dot14 rounding, the ConditionSet-keyed record map, lookup ordering and an OpenType shaper (first matching record, lookups in index order). Theorems for any number of rules, axes and boxes: the overlay is total and sound, the first box containing a location lists exactly the firing rules in rule order, merging keeps substitutions, and - on the F2Dot14 grid, for compatible (non-conflicting, non-chaining) firing rules without condition-set collisions - the font applies exactly the source rules (font_applies_source_rules); machine-checked refutations for the four known-finding classes. Tied to the code on every run: the real overlay_feature_variations on generated rule lists (incl. 65-70 rules) and compiled designspaces whose GSUB FeatureVariations are decoded and evaluated at cell centres and one step inside/outside every edge.",
+    note="Trusted: Coq kernel + vm_compute; hand-written model and its correspondence run (exact equality of boxes, records, lookup indices); read-fonts as independent reader; Rust harness. No axioms. Three defects repaired in /repo (fix: commits), four known findings listed.",
 )
